@@ -434,6 +434,18 @@ type Conn struct {
 	killOnFail bool
 	schemaDrop bool
 	closeOnce  sync.Once
+	// sessionOver: the ATP server session is ending; a plugin step that errors or panics now would
+	// crash the (real) plugin SDK, i.e. this process, so scripted misbehaviour is suppressed then.
+	sessionOver atomic.Bool
+}
+
+func (c *Conn) ending() bool {
+	if c.sessionOver.Load() || c.ctx.Err() != nil {
+		return true
+	}
+	c.c2s.mu.Lock()
+	defer c.c2s.mu.Unlock()
+	return c.c2s.closed || c.c2s.dead
 }
 
 func newConn(w *World, d *Deployment) *Conn {
@@ -454,6 +466,7 @@ func (c *Conn) ID() string { return fmt.Sprintf("%s#%d", c.d.Src, c.d.N) }
 // Kill makes the connection die in both directions, as when the container disappears.
 func (c *Conn) Kill(why string) {
 	c.w.Log(Event{Kind: EvKill, Src: c.d.Src, Dep: c.d.N, Probe: c.d.Probe, Data: map[string]any{"why": why}})
+	c.sessionOver.Store(true)
 	c.s2c.kill()
 	c.c2s.kill()
 	c.cancel()
@@ -462,6 +475,7 @@ func (c *Conn) Kill(why string) {
 // Close implements io.Closer: it shuts the plugin down and waits for it to exit.
 func (c *Conn) Close() error {
 	n := c.d.Closes.Add(1)
+	c.sessionOver.Store(true)
 	c.w.Log(Event{Kind: EvConnClose, Src: c.d.Src, Dep: c.d.N, Probe: c.d.Probe, Data: map[string]any{"nth": int(n)}})
 	c.cancel()
 	c.s2c.Close()
@@ -474,10 +488,17 @@ func (c *Conn) Close() error {
 	return nil
 }
 
-type readCloser struct{ p *pipeBuf }
+type readCloser struct {
+	p *pipeBuf
+	c *Conn
+}
 
 func (r readCloser) Read(b []byte) (int, error) { return r.p.Read(b) }
-func (r readCloser) Close() error               { return r.p.Close() }
+func (r readCloser) Close() error {
+	// the ATP server closes its stdin when the session ends (client done or fatal error)
+	r.c.sessionOver.Store(true)
+	return r.p.Close()
+}
 
 type writeCloser struct{ p *pipeBuf }
 
@@ -494,7 +515,7 @@ func (c *Conn) start() {
 	sch := c.w.pluginSchema(c)
 	go func() {
 		defer close(c.done)
-		atp.RunATPServer(c.ctx, readCloser{c.c2s}, writeCloser{c.s2c}, sch)
+		atp.RunATPServer(c.ctx, readCloser{c.c2s, c}, writeCloser{c.s2c}, sch)
 		c.d.Exited.Store(true)
 		c.w.Log(Event{Kind: EvServerExit, G: fmt.Sprintf("server/%d", c.d.N), Src: c.d.Src, Dep: c.d.N, Probe: c.d.Probe})
 		if s := c.w.Sim; s != nil {
@@ -650,7 +671,20 @@ func (w *World) handler(c *Conn, withSignal bool) func(ctx context.Context, sd *
 		for {
 			select {
 			case <-timer:
-				switch in.Mode {
+				timer = nil
+				if ctx.Err() != nil {
+					continue // shutting down: take the ctx.Done branch, whatever select happened to pick
+				}
+				mode := in.Mode
+				if mode == "panic" || mode == "badout" {
+					simrt.EnvPoint("env:misbehave", false, 0)
+					if c.ending() {
+						w.Fired("misbehaviour_suppressed_session_over")
+						w.Log(Event{Kind: EvCtxDone, Src: c.d.Src, Dep: c.d.N})
+						return "cancelled", CancelledOut{Msg: "terminated"}
+					}
+				}
+				switch mode {
 				case "err":
 					w.Fired("plugin_error_output")
 					return end("error", ErrorOut{Reason: "scripted error a=" + fmt.Sprint(in.A)})
@@ -678,6 +712,9 @@ func (w *World) handler(c *Conn, withSignal bool) func(ctx context.Context, sd *
 				}
 			case <-cancelCh:
 				cancelCh = nil
+				if ctx.Err() != nil {
+					continue
+				}
 				simrt.EnvPoint("env:cancel-signal", false, 0)
 				w.Log(Event{Kind: EvCancelSignal, Src: c.d.Src, Dep: c.d.N})
 				switch in.OnCancel {
